@@ -123,6 +123,8 @@ type Node struct {
 	Seen   map[H]bool // vertices ever observed confirmed on this node
 	Closed bool
 	Synced bool // obtained its ledger through LoadDag
+	// Interrupted: the harness cancelled a truncation of this node half way (storage copies of live vertices exist)
+	Interrupted bool
 	// Tainted: addresses whose checkpointed net flow was negative at some truncation on this node
 	// (cross-branch overdraw, C02 known finding); their checkpoint funds are not judged afterwards.
 	Tainted map[string]bool
